@@ -326,7 +326,7 @@ CONSTANTS Part = "{part}" Tier = "{tier}" Shard = {shard} NShards = {n}
 INVARIANT {invs}
 """
 PAIR_INVS = "InvVerdictDomain InvReflexive InvAnyTop InvUnion InvCovariant InvTransitive Emit"
-PIPE_INVS = "InvPipeDomain InvPipeEdges Emit"
+PIPE_INVS = "InvPipeDomain InvPipeEdges InvNamed Emit"
 
 ADHOC = """---- MODULE MC_TypeCompatAdhoc ----
 (* generated by pfverif/props/c16.py: verdicts of TypeCompat for explicitly listed pairs / pipelines *)
@@ -504,12 +504,66 @@ def build_functions(u: Userland, shape: str, edges: list[dict], style: str) -> l
     raise MachineryError(f"unknown shape {shape}")
 
 
+def _ms_text(ms: dict) -> str | None:
+    if not ms["has"]:
+        return None
+    side = lambda arrs: ", ".join(f"{a['n']}[{', '.join(a['ax'])}]" for a in arrs) or "..."  # noqa: E731
+    return f"{side(ms['ins'])} -> {side(ms['outs'])}"
+
+
+def build_named(u: Userland, desc: dict, style: str) -> list:
+    """Real PipeFuncs for a NAMED description (TypeCompat section 6): declared output names, one return annotation per
+    position, rename steps (renames= / update_renames / update_scope) and user-written MapSpecs on both functions."""
+    from pipefunc import PipeFunc
+
+    none = rec("NoAnn")
+    prod, cons = desc["prod"], desc["cons"]
+    outs, anns = prod["outs"], prod["anns"]
+    ret = anns[0] if len(outs) == 1 else rec("tuple", *anns)
+    roots = [a["n"] for a in prod["ms"]["ins"]] or ["x"]
+    steps = [dict(map(tuple, st)) for st in prod["steps"]]
+    hows = list(prod["hows"])
+    ctor: dict = {}
+    if hows and hows[0] == "ctor":
+        ctor, steps, hows = steps[0], steps[1:], hows[1:]
+    f = PipeFunc(_fn(u, "f", [(n, none) for n in roots], ret, style), outs[0] if len(outs) == 1 else tuple(outs),
+                 renames=ctor or None, mapspec=_ms_text(prod["ms"]))
+    for how, st in zip(hows, steps):
+        if how == "update":
+            f.update_renames(st)
+        elif how == "scope":
+            scopes = {v.split(".", 1)[0] for v in st.values()}
+            if len(scopes) != 1 or any(v != f"{next(iter(scopes))}.{k}" for k, v in st.items()):
+                raise MachineryError(f"not a scope step: {st}")
+            f.update_scope(next(iter(scopes)), outputs=set(st))
+        else:
+            raise MachineryError(f"unknown rename step kind {how}")
+    params, scoped = [], {}
+    for q in cons["params"]:
+        py = q["n"]
+        if "." in py:                      # a scoped name: the function has the bare parameter, the scope is added
+            sc, py = py.split(".", 1)
+            scoped.setdefault(sc, set()).add(py)
+        params.append((py, q["t"]))
+    g = PipeFunc(_fn(u, "g", params, none, style), "z", mapspec=_ms_text(cons["ms"]))
+    for sc, names in scoped.items():
+        g.update_scope(sc, inputs=names)
+    connected = [n for n in g.parameters if n in (f.output_name if isinstance(f.output_name, tuple) else (f.output_name,))]
+    if len(connected) != len(desc["edges"]) or [q["n"] for q in cons["params"]] != list(g.parameters):
+        raise MachineryError(f"named description not realised: outputs {f.output_name}, parameters {g.parameters}, "
+                             f"{len(desc['edges'])} edges expected")
+    return [f, g]
+
+
 def construct(desc: dict, style: str = "typing") -> tuple[str, str]:
     """Outcome of Pipeline([...]) for a description: 'accept' | 'TypeError' | other exception class name."""
     from pipefunc import Pipeline
 
     u = userland()
-    funcs = build_functions(u, desc["shape"], desc["edges"], style)
+    if "prod" in desc:
+        funcs = build_named(u, desc, style)
+    else:
+        funcs = build_functions(u, desc["shape"], desc["edges"], style)
     if (desc.get("p", 0) + desc.get("c", 0)) % 2:      # listing order must not matter
         funcs = funcs[::-1]
     buf = io.StringIO()
@@ -549,11 +603,13 @@ def pipe_sig(desc: dict, style: str, observed: str, expect: str) -> dict:
             src = rec("array", src)
         for k, v in features(src, e["c"]).items():
             f[k] = f.get(k, False) or v
-        if desc["shape"] in ("multi2", "multi2x") and e["p"]["k"] == "None":     # written as tuple[None, int]
+        if (desc["shape"] in ("multi2", "multi2x") or desc["shape"].startswith("ren_")) and e["p"]["k"] == "None":  # tuple[None, int]
             f["none_arg_of_builtin_generic"] = True
     reduced_annotated = any(e["via"] in ("reduce", "preduce") and e["p"]["k"] == "ann" for e in desc["edges"])
     return {"check": "pipeline", "style": style, "shape": desc["shape"], "validate": desc["validate"],
-            "observed": observed, "required": expect, "reduced_producer_annotated": reduced_annotated, **f}
+            "observed": observed, "required": expect, "reduced_producer_annotated": reduced_annotated,
+            "renamed_outputs": desc["shape"].startswith("ren_"), "consumer_own_mapspec": desc["shape"].endswith("_other2"),
+            **f}
 
 
 # ------------------------------------------------------------------------------------------------
@@ -720,6 +776,7 @@ def check_pipes(ctx: Ctx, descs: list[dict], corrupt: int | None = None, paralle
                               f"Pipeline {d['shape']} [{es}] validate={d['validate']} [{style}]: {observed}; "
                               f"TypeCompat says {expect} ({msg})",
                               {"kind": "pipe", "shape": d["shape"], "edges": d["edges"], "validate": d["validate"],
+                               **({"prod": d["prod"], "cons": d["cons"]} if "prod" in d else {}),
                                "p": d.get("p", 0), "c": d.get("c", 0), "style": style, "observed": observed,
                                "required": expect, "message": msg})
     return bad
@@ -734,7 +791,9 @@ def run(ctx: Ctx) -> None:
                 "universe (quick: depth <= 1, thorough: depth <= 2 plus six depth-3 nestings) exported by TLC from MC_TypeCompat with the verdict "
                 "yes/no/either, plus seeded random pairs of depth <= 3 decided by TLC through a generated ad-hoc module; "
                 "non-trivial = the two annotations differ, both exist and the required one is not Any. "
-                "pipeline case = (shape, annotations on its edges, validate flag, style) for 12 shapes of 2-3 functions; "
+                "pipeline case = (shape, annotations on its edges, validate flag, style) for 20 shapes of 2-3 functions (12 with "
+                "listed edges, 8 NAMED ones whose edges TLC derives from declared output names + rename steps [renames=, "
+                "update_renames, update_scope, swap] and from the user-written MapSpecs of both functions); "
                 "non-trivial = validation on and some checked edge joins two different explicit annotations")
     ctx.assumptions = [
         "TLC and the record <-> source-text translation of annotations are trusted (round-trip self-test on every run)",
@@ -880,6 +939,8 @@ def replay(rep: dict) -> int:
             ok = agrees(observed, v)
         else:
             desc = {"shape": w["shape"], "edges": w["edges"], "validate": w["validate"], "p": w.get("p", 0), "c": w.get("c", 0)}
+            if "prod" in w:
+                desc.update(prod=w["prod"], cons=w["cons"])
             v = adhoc_verdicts(ctx, "replay", [], [desc])[1][0]
             observed, msg = construct(desc, w["style"])
             es = "; ".join(f"{show(e['p'])} -{e['via']}-> {show(e['c'])}" for e in w["edges"])
